@@ -122,7 +122,7 @@ CATALOGUE = [
     m('c07-continue-not-raise', 'C07', 'break', S, [("            else:\n                raise KeyError(\"Unknown bit label {0} for flag group {1}!\".format(bit, flagu))", "            else:\n                continue")], 'C07.GUARDED'),
     m('c07-exist-unguarded', 'C07', 'break', S, [("    if flagname.upper() in maskbits:\n        f = True\n        which", "    if True:\n        f = True\n        which")], 'C07.GUARDED'),
     m('c07-python-int-shift', 'C07', 'break', S, [("if (flagvaluint & (one << np.uint64(bit))) != 0]", "if (flagvaluint & (one << bit)) != 0]")], 'C07.U64'),
-    m('c07-alias-no-copy-before-rows', 'C07', 'break', S, [("maskbits[maskfile['MASKALIAS']['flag'][k]].copy()", "maskbits[maskfile['MASKALIAS']['flag'][k]]")], 'C07.ALIAS'),
+    m('c07-alias-no-copy-before-rows', 'C07', 'break', S, [("maskbits[maskfile['MASKALIAS']['flag'][k].upper()].copy()", "maskbits[maskfile['MASKALIAS']['flag'][k].upper()]")], 'C07.ALIAS'),
     m('c07-keep-range-0-64', 'C07', 'keep', S, [("for bit in range(64)", "for bit in range(0, 64)")]),
     # ------------------------------------------------------------------ C08
     m('c08-return-sorted', 'C08', 'break', B, [("        return (yy, mask)", "        return (yfit, mask)")], 'C08.UNSORT'),
@@ -134,8 +134,9 @@ CATALOGUE = [
     m('c09-status-lost', 'C09', 'break', B, [("            return (-2, yfit)", "            return yfit")], 'C09.STATUS'),
     m('c09-keep-ge', 'C09', 'keep', B, [("            ict = upper[k] - lower[k] + 1\n            if ict > 0:", "            if upper[k] >= lower[k]:")]),
     # ------------------------------------------------------------------ C10
-    m('c10-no-unsort', 'C10', 'break', B, [("    outmask[xsort] = maskwork\n", "    outmask = maskwork\n")], 'C10.UNSORT'),
-    m('c10-double-gather', 'C10', 'break', B, [("    outmask[xsort] = maskwork\n", "    outmask[xsort] = maskwork[xsort]\n")], 'C10.UNSORT'),
+    m('c10-early-return-all-true', 'C10', 'break', B, [("            outmask[xsort] = maskwork\n            return (sset, outmask)", "            return (sset, outmask)")], 'C10.MASK-EXITS'),
+    m('c10-no-unsort', 'C10', 'break', B, [("    outmask[xsort] = maskwork\n    temp = yfit", "    outmask = maskwork\n    temp = yfit")], 'C10.UNSORT'),
+    m('c10-double-gather', 'C10', 'break', B, [("    outmask[xsort] = maskwork\n    temp = yfit", "    outmask[xsort] = maskwork[xsort]\n    temp = yfit")], 'C10.UNSORT'),
     m('c10-fit-unmasked', 'C10', 'break', B, [("error, yfit = sset.fit(xwork, ywork, invwork*maskwork,", "error, yfit = sset.fit(xwork, ywork, invwork,")], 'C10.WEIGHT-MASK'),
     m('c10-limits-swapped', 'C10', 'break', B, [("invvar=invwork, lower=lower, upper=upper,", "invvar=invwork, lower=upper, upper=lower,")], 'C10.LIMITS'),
     m('c10-no-inmask', 'C10', 'break', B, [("djs_reject(ywork, yfit, inmask=inmask, outmask=maskwork,", "djs_reject(ywork, yfit, inmask=None, outmask=maskwork,")], 'C10.INMASK'),
@@ -180,6 +181,14 @@ CATALOGUE = [
     m('c17-sky-width', 'C17', 'break', S1, [("        width = 2*ngrow + 1", "        width = 2*ngrow")], 'C17.SKY'),
     m('c17-sky-flag', 'C17', 'break', S1, [("    redmonster = sdss_flagval('SPPIXMASK', 'REDMONSTER')", "    redmonster = sdss_flagval('SPPIXMASK', 'BRIGHTSKY')")], 'C17.SKY'),
     # ------------------------------------------------------------------ C18
+    m('c18-keep-haversine-helper', 'C18', 'keep', 'pydl/goddard/astro.py', [
+        ("def gcirc(ra1, dec1, ra2, dec2, units=2):", "def _hav(x):\n    return np.sin(x/2.0)**2\n\n\ndef gcirc(ra1, dec1, ra2, dec2, units=2):"),
+        ("    sindis = np.sqrt(np.sin(deldec2)*np.sin(deldec2) +\n                     np.cos(dcrad1)*np.cos(dcrad2)*np.sin(delra2)*np.sin(delra2))",
+         "    sindis = np.sqrt(_hav(dcrad2 - dcrad1) + np.cos(dcrad1)*np.cos(dcrad2)*_hav(rarad2 - rarad1))")]),
+    m('c18-haversine-helper-1-cos', 'C18', 'break', 'pydl/goddard/astro.py', [
+        ("def gcirc(ra1, dec1, ra2, dec2, units=2):", "def _hav(x):\n    return 0.5*(1.0 - np.cos(x))\n\n\ndef gcirc(ra1, dec1, ra2, dec2, units=2):"),
+        ("    sindis = np.sqrt(np.sin(deldec2)*np.sin(deldec2) +\n                     np.cos(dcrad1)*np.cos(dcrad2)*np.sin(delra2)*np.sin(delra2))",
+         "    sindis = np.sqrt(_hav(dcrad2 - dcrad1) + np.cos(dcrad1)*np.cos(dcrad2)*_hav(rarad2 - rarad1))")], 'C18.HAVERSINE'),
     m('c18-rot-sign', 'C18', 'break', CO, [("    yy = sinmu * cosnu * cosi - sinnu * sini", "    yy = sinmu * cosnu * cosi + sinnu * sini")], 'C18.ROT'),
     m('c18-inverse-not-transposed', 'C18', 'break', CO, [("    y2 = y1 * cosi + z1 * sini\n    z2 = -y1 * sini + z1 * cosi", "    y2 = y1 * cosi - z1 * sini\n    z2 = y1 * sini + z1 * cosi")], 'C18.ROT'),
     m('c18-node-not-added', 'C18', 'break', CO, [("    mu = ac.Angle(np.arctan2(y2, x2), unit=u.radian) + munu.node", "    mu = ac.Angle(np.arctan2(y2, x2), unit=u.radian)")], 'C18.NODE'),
@@ -250,8 +259,8 @@ KEEPS = [
     m('c17-keep-rename-k', 'C17', 'keep', MA, [("            for k in range(1, grow+1):\n                newmask[np.maximum(irejects - k, 0)] = 0\n                newmask[np.minimum(irejects + k, data.shape[0]-1)] = 0",
                                                "            for step in range(1, grow+1):\n                newmask[np.maximum(irejects - step, 0)] = 0\n                newmask[np.minimum(irejects + step, data.shape[0]-1)] = 0")]),
     m('c17-keep-array-equal', 'C17', 'keep', MA, [("    qdone = bool(np.all(newmask == outmask))", "    qdone = bool(np.array_equal(newmask, outmask))")]),
-    m('c18-keep-rename-xyz', 'C18', 'keep', CO, [("    x2 = x1\n    y2 = y1 * cosi + z1 * sini\n    z2 = -y1 * sini + z1 * cosi\n    mu = ac.Angle(np.arctan2(y2, x2), unit=u.radian) + munu.node\n    nu = ac.Angle(np.arcsin(z2), unit=u.radian)",
-                                                 "    xr = x1\n    yr = y1 * cosi + z1 * sini\n    zr = -y1 * sini + z1 * cosi\n    mu = ac.Angle(np.arctan2(yr, xr), unit=u.radian) + munu.node\n    nu = ac.Angle(np.arcsin(zr), unit=u.radian)")]),
+    m('c18-keep-rename-xyz', 'C18', 'keep', CO, [("    x2 = x1\n    y2 = y1 * cosi + z1 * sini\n    z2 = -y1 * sini + z1 * cosi\n    mu = ac.Angle(np.arctan2(y2, x2), unit=u.radian) + munu.node\n    nu = ac.Angle(np.arcsin(np.clip(z2, -1.0, 1.0)), unit=u.radian)",
+                                                 "    xr = x1\n    yr = y1 * cosi + z1 * sini\n    zr = -y1 * sini + z1 * cosi\n    mu = ac.Angle(np.arctan2(yr, xr), unit=u.radian) + munu.node\n    nu = ac.Angle(np.arcsin(np.clip(zr, -1.0, 1.0)), unit=u.radian)")]),
     m('c18-keep-square', 'C18', 'keep', AS, [("    sindis = np.sqrt(np.sin(deldec2)*np.sin(deldec2) +\n                     np.cos(dcrad1)*np.cos(dcrad2)*np.sin(delra2)*np.sin(delra2))", "    sindis = np.sqrt(np.sin(deldec2)**2 +\n                     np.cos(dcrad1)*np.cos(dcrad2)*np.sin(delra2)**2)")]),
     m('c19-keep-comment', 'C19', 'keep', AS, [("    for k in range(2):\n        sigma2 = (1.0e4/vacuum)**2", "    for k in range(2):\n        # Ciddor (1996)\n        sigma2 = (1.0e4/vacuum)**2")]),
     m('c20-keep-get-default', 'C20', 'keep', S1, [("        metadata['orig_'+r] = os.environ.get(r.upper())", "        metadata['orig_'+r] = os.environ.get(r.upper(), None)")]),
